@@ -166,7 +166,10 @@ class Env:
         self.registry = TaskRegistry()
         for st in self.spec["stages"]:
             for i, _ in enumerate(st.get("tasks", [])):
-                self.registry.register(f"vt_{st['ref']}_{i}", self._make_task(st["ref"], i, st))
+                # "alias": the stage's tasks name their implementation through a registry ALIAS (resolved by the handlers
+                # through message.task_type only); behaviour is the same, so the model does not know about it
+                self.registry.register(f"vt_{st['ref']}_{i}", self._make_task(st["ref"], i, st),
+                                       aliases=([f"va_{st['ref']}_{i}"] if st.get("alias") else None))
             for kind in SYN_KINDS:
                 for ch in st.get(kind, []):
                     for i, _ in enumerate(ch.get("tasks", [])):
@@ -388,7 +391,7 @@ class Env:
                 milestone_ref_id=(st["milestone"][0] if st.get("milestone") else None),
                 milestone_status=(st["milestone"][1] if st.get("milestone") else None),
                 start_time_expiry=(1 if st.get("expired") else None),
-                tasks=[TaskExecution.create(name=f"t{i}", implementing_class=f"vt_{st['ref']}_{i}",
+                tasks=[TaskExecution.create(name=f"t{i}", implementing_class=("va_" if st.get("alias") else "vt_") + f"{st['ref']}_{i}",
                                             stage_start=(i == 0), stage_end=(i == len(st["tasks"]) - 1))
                        for i in range(0 if st.get("built") else len(st.get("tasks", [])))],
             )
